@@ -335,9 +335,15 @@ class RecCallable:
         return self.inner(t)
 
 
-def run_stubbed(backend, data, cfg):
-    """Run a real back-end (`sv`, `mps`, `dmrg`) on `data` with the evolution replaced by a recorder.
-    Returns (results, log) where log = dict(steps, acc, queries, step_mats)."""
+def run_stubbed(backend, data, cfg, jump_plan=None, rate=0.0):
+    """Run a real back-end (`sv`, `mps`, `dmrg`, `noisy`) on `data` with the evolution replaced by a recorder.
+    Returns (results, log) where log = dict(steps, acc, queries, step_mats).
+
+    `noisy` = the real NoisyMPSBackendImpl (data must carry Lindblad operators, two atoms): the stub evolution
+    scales the state by exp(-rate*dt/2), so the squared norm is exp(-rate*(t - t_last_jump)) exactly as a
+    function of time, and `random.uniform` (the jump threshold) is scripted so that the next quantum jump
+    falls at the next time of `jump_plan` (absolute ns); the root finder, `do_random_quantum_jump`,
+    `sweep_complete`, `timestep_complete` and `fill_results` are the real code."""
     compat.install()
     import dataclasses
     HOLDER.clear()
@@ -367,11 +373,25 @@ def run_stubbed(backend, data, cfg):
         else:
             import emu_mps.mps_backend_impl as mi
 
+            plan = sorted(jump_plan or [])
+
+            def scripted_uniform(a, b):
+                impl = HOLDER.get("impl")
+                now = impl.current_time if impl is not None else 0.0
+                nxt = next((t for t in plan if t > now + 1e-9), None)
+                HOLDER.setdefault("jumps", []).append(now)
+                if nxt is None:
+                    return 0.0
+                return b * math.exp(-rate * (nxt - now))
+
             def stub_evolve(self, *indices, dt, orth_center_right=None):
+                HOLDER["impl"] = self
                 if len(indices) == 2:
                     l, r = indices
                     if (l, r) == (0, 1):
                         HOLDER["acc"] += dt
+                        if backend == "noisy":
+                            self.state.factors[0] = self.state.factors[0] * math.exp(-rate * dt / 2)
                         if self._timestep_index + 1 > HOLDER["steps"]:
                             HOLDER["steps"] = self._timestep_index + 1
                             HOLDER["step_mats"].append(self.current_interaction_matrix)
@@ -394,17 +414,20 @@ def run_stubbed(backend, data, cfg):
             st.enter_context(mock.patch.object(mi.MPSBackendImpl, "_evolve", stub_evolve))
             st.enter_context(mock.patch.object(mi, "minimize_energy_pair", stub_min))
             st.enter_context(mock.patch.object(mi.MPSBackendImpl, "fill_results", fill))
+            if backend == "noisy":
+                st.enter_context(mock.patch.object(mi.random, "uniform", scripted_uniform))
             res = compat.run_mps(data, cfg)
     return res, dict(HOLDER)
 
 
 def zero_data(n_steps, n_qubits, target_times, U=None, masked_U=None, slm_end=0.0, bad_atoms=None,
-              state_prep_error=0.0):
+              state_prep_error=0.0, lindblad_ops=None):
     import numpy as np
     z = np.zeros((n_steps, n_qubits))
     U = np.zeros((n_qubits, n_qubits)) if U is None else U
     return compat.make_sequence_data(z, z, z, U, target_times, masked_U=masked_U, slm_end_time=slm_end,
-                                     bad_atoms=bad_atoms, state_prep_error=state_prep_error)
+                                     bad_atoms=bad_atoms, state_prep_error=state_prep_error,
+                                     lindblad_ops=lindblad_ops)
 
 
 def result_times(res, observable):
